@@ -189,24 +189,3 @@ Proof.
     rewrite str_to_ascii by (try apply encoded_id_ascii; assumption || lia).
     cbn [res_bind refusal]. reflexivity.
 Qed.
-
-(** the encapsulation directory name is never longer than 100 + 1 + digest length *)
-Lemma encapsulation_length id dg :
-  (List.length (encapsulation id dg) <= 100 + 1 + List.length dg)%nat /\
-  (forall x, encapsulation id dg = x -> (List.length (flat_map encode_char id) <= 100)%nat -> x = flat_map encode_char id) /\
-  ((100 < List.length (flat_map encode_char id))%nat ->
-     encapsulation id dg = firstn 100 (flat_map encode_char id) ++ "-"%char :: dg /\
-     List.length (encapsulation id dg) = (101 + List.length dg)%nat).
-Proof.
-  unfold encapsulation. set (E := flat_map encode_char id).
-  destruct (Nat.ltb 100 (List.length E)) eqn:L.
-  - repeat split.
-    + rewrite app_length, firstn_length. cbn [List.length]. lia.
-    + intros x _ H. lia.
-    + rewrite app_length, firstn_length. cbn [List.length]. lia.
-  - repeat split.
-    + lia.
-    + intros x <- _. reflexivity.
-    + lia.
-    + lia.
-Qed.
